@@ -3,6 +3,7 @@
 The checks must stay silent on such a change (no false alarm)."""
 import json, subprocess, sys
 pid, tag = sys.argv[1], sys.argv[2]
+hint = sys.argv[3] if len(sys.argv) > 3 else ""
 wt = "/tmp/keep_%s_%s" % (pid.lower(), tag)
 subprocess.check_call(["git", "-C", "/repo", "worktree", "add", "-q", "--detach", wt, "HEAD"])
 p = [json.loads(l) for l in open("/verif/properties.jsonl") if json.loads(l)["id"] == pid][0]
@@ -17,6 +18,7 @@ Your job: make ONE change (it may span several lines or sites) to the library so
  - change values within the tolerance the statement gives (e.g. a different but equally accurate summation order or formula, results differing in the last bits, int where a float was returned or the reverse, numpy scalar vs Python float, tuple vs list) without exceeding it;
  - refactor internals a checker might peek at: rename or restructure private attributes (name-mangled fields, module globals, the heap array of a queue, column order of internal tables), replace a data structure by an equivalent one, change iteration order where it does not matter, copy instead of share (or share instead of copy) where the statement does not care;
  - change behaviour OUTSIDE the property's scope only (inputs the scope excludes, error messages, printing, what is returned for invalid arguments).
+{hint}
 Do not break the property, not even in a corner of its scope: think about ties, empty inputs, NaN, boundaries. Do not touch the tests. The repository's existing test suite must still pass exactly as before.
 
 Procedure:
